@@ -3,7 +3,9 @@ import itertools
 
 from vlib import core, oracles
 
-NAMES = ['col', 'Col_1', 'x', 'élan', 'tbl2']
+# the second row: non-keywords that start with a word some dedicated lexical rule knows (ASC, DESC, END, AS, IN, FROM ...)
+NAMES = ['col', 'Col_1', 'x', 'élan', 'tbl2',
+         'description', 'ascii_code', 'endpoint', 'order_id', 'as_of', 'in_stock', 'from_date', 'joiner', 'casefold', 'likes']
 NAMES_MORE = ['a1', 'ñ', 'my_long_name', 'T', 'c_1x']
 QUOTE = [('', ''), ('"', '"'), ('`', '`')]
 # spellings that only exist inside quotes ({q}{q} = the escaped quote character of the style in use)
@@ -11,7 +13,9 @@ QUOTED_ONLY = ['my col', 'x{q}{q}', '{q}{q}x', 'a{q}{q}b', 'se;l.ect']
 QUALS = [None, ('sch', '', ''), ('my sch', '"', '"'), ('Sch', '`', '`'), ('s""', '"', '"')]
 # alias: (text to append after the reference with {w} for whitespace, expected alias)
 ALIASES = [('', None), ('{w}al', 'al'), ('{w}AS{w}al', 'al'), ('{w}as{w}"al"', 'al'), ('{w}`al`', 'al'),
-           ('{w}AS{w}"a b"', 'a b'), ('{w}As{w}Al_2', 'Al_2'), ('{w}as{w}"al"""', 'al""')]
+           ('{w}AS{w}"a b"', 'a b'), ('{w}As{w}Al_2', 'Al_2'), ('{w}as{w}"al"""', 'al""'),
+           # an alias spelled exactly like the name it renames ({n} = the written name with its quotes)
+           ('{w}{n}', '{n}'), ('{w}AS{w}{n}', '{n}')]
 WS = [' ', '  ', '\n', '\t']
 NEIGH = [('a', 'b'), ('f(1)', 'max(b) m'), ('1', "'s'")]
 # context: template with {X}; {A}/{B} neighbours; {w} whitespace
@@ -55,6 +59,9 @@ def build(name, ql, qr, qual, alias, w, ctx, neigh):
         ref = a + qn + b + '.' + ref
         exp_parent = qn
     atext, exp_alias = alias
+    if '{n}' in atext:
+        atext = atext.replace('{n}', ql + name + qr)
+        exp_alias = name
     item = ref + atext.format(w=w)
     text = ctx[1].format(X=item, A=neigh[0], B=neigh[1], w=w)
     return text, item, {'real': name, 'parent': exp_parent, 'alias': exp_alias,
@@ -100,7 +107,7 @@ def run(tier, seed):
                 acc.case(text, True, outcome=ctx[0], sample={'text': text, 'item': item, 'expected': exp})
                 if bad:
                     quoting = {'': 'bare', '"': 'dq', '`': 'bq'}[ql]
-                    cube = f'{bad[1]}|ctx={ctx[0]}|quote={quoting}|qual={"none" if qual is None else (qual[1] or "bare")}|alias={alias[0].format(w="_")}'
+                    cube = f'{bad[1]}|ctx={ctx[0]}|quote={quoting}|qual={"none" if qual is None else (qual[1] or "bare")}|alias={alias[0].replace("{w}", "_")}'
                     acc.violation({'kind': bad[0], 'sig': cube, 'detail': bad[2], 'text': text, 'item': item,
                                    'expected': exp, 'size': len(text)})
         return acc.dump()
